@@ -4,3 +4,9 @@ mod sort;
 
 pub use chunk::{ExternalChunk, ExternalChunkError};
 pub use sort::{ExternalSorterBuilder, ExternalSorter, SortError};
+
+/// Verification seam: the merger type is public but its module is private.
+#[cfg(feature = "verif-hooks")]
+pub use merger::BinaryHeapMerger;
+#[cfg(feature = "verif-hooks")]
+pub use chunk::verif_dump;
